@@ -43,4 +43,4 @@ LEVEL_TEXT = ('Bounded symbolic verification of the real Interpolation operators
               'Grid shapes and splits are bounded.')
 LEVEL_NOTE = 'exact arithmetic; shapes bounded as listed; linear reproduction without the midpoint assumption is a recorded known finding (known_findings.json)'
 TECHNIQUE = 'symbolic execution of LLVM IR (llsym) + SMT (z3 QF_NRA) with symbolic grid spacings'
-DESIGN_REF = 'DESIGN.md section 6/C08'
+DESIGN_REF = 'DESIGN.md section 0 (status as built: 0.2, 0.5, 0.6) and section 6/C08 (design)'
